@@ -72,7 +72,7 @@ func CRX(raw []byte, limit uint32) bool {
 	pubkeyLen := binary.LittleEndian.Uint32(raw[8:12])
 	sigLen := binary.LittleEndian.Uint32(raw[12:16])
 	zipOffset := minHeaderLen + pubkeyLen + sigLen
-	if uint32(len(raw)) < zipOffset {
+	if uint64(len(raw)) < uint64(zipOffset) {
 		return false
 	}
 	return Zip(raw[zipOffset:], limit)
